@@ -28,10 +28,15 @@ META = {
             "kept pre-fix definitions): btc_timespan_v0_refuted (uint32 timespan, F7), vbk_static_K_v0_refuted (static K, F6). "
             "The executable model is compared with the real BlockTree<BtcBlock>/BlockTree<VbkBlock> (custom parameter "
             "sets, several trees in one process, mined headers) on generated header chains.",
-    "note": "Trusted: Coq kernel incl. vm_compute; extraction (ExtrOcamlBasic), OCaml driver, C++ harness, generators. The VBK "
-            "double step is Coq PrimFloat (kernel primitive floats; the vbk theorems that compute with it list no axioms "
-            "because they are proved by vm_compute on closed terms or are generic in the coefficient function); the OCaml "
-            "driver evaluates that step with native floats and EVERY (K,t) it used is re-evaluated in Coq on each run. "
+    "note": "Trusted: Coq kernel incl. vm_compute; extraction (ExtrOcamlBasic), OCaml driver, C++ harness, generators. "
+            "Print Assumptions: 15 of the 16 theorems are closed under the global context. C15_vbk_static_K_v0_refuted "
+            "(a vm_compute witness through the double step) lists the kernel's primitive float / 63-bit integer "
+            "constants, which Print Assumptions reports under 'Axioms:' (they are primitives, no logical axiom is used): "
+            "PrimFloat.float PrimFloat.abs PrimFloat.add PrimFloat.div PrimFloat.eqb PrimFloat.frshiftexp PrimFloat.ltb "
+            "PrimFloat.mul PrimFloat.normfr_mantissa PrimFloat.of_uint63 PrimFloat.opp PrimInt63.int PrimInt63.eqb "
+            "PrimInt63.land PrimInt63.lor PrimInt63.lsl PrimInt63.lsr PrimInt63.sub. The general VBK theorems are generic "
+            "in the coefficient function and list nothing. The OCaml driver evaluates the double step with native floats "
+            "and EVERY (K,t) it used is re-evaluated in Coq (VbkFloat.vbk_coef, vm_compute) on each run. "
             "Modelled not verified: ArithUint256 as Z mod 2^256, hashes, std::sort.",
     "technique": "Coq proof (induction over chains / operation sequences, Z arithmetic) + extraction-based differential "
                  "correspondence against the rebuilt library + constants regenerated from the headers",
@@ -132,6 +137,7 @@ class TreeGen:
         self.tip = 1
         self.nid = 2
         self.unknown = 0xdead00
+        self.dead = set()
 
     def add(self, bid, parent, time, bits, valid):
         ph = self.blocks[parent]["h"] if parent in self.blocks else -1
@@ -166,7 +172,7 @@ class TreeGen:
             return "mine" if t >= (1 << 240) else "hard"
         if t < self.P["mindiff"]:
             return "never"
-        return "mine" if t <= 6 else "hard"
+        return "mine" if t <= 12 else "hard"
 
     def keystones(self, parent, mode):
         """VBK: keystone ids for a child of [parent]; mode 0 = as prescribed"""
@@ -231,13 +237,18 @@ class TreeGen:
         parent = self.tip if y < 75 else r.choice(list(self.blocks))
         if parent not in self.blocks:
             parent = 1
+        if parent in self.dead and r.below(100) < 90:
+            alive = [b for b in self.blocks if b not in self.dead and self.blocks[b]["valid"]]
+            if alive:
+                top = max(self.blocks[b]["h"] for b in alive)
+                parent = r.choice([b for b in alive if self.blocks[b]["h"] >= top - 1])
         pt = self.blocks[parent]["t"]
         pr = kv(S.emit("probe", self.name, parent, pt))
         mtp = hexi(pr.get("mtp"), pt)
         unit = P["spacing"] if self.kind == "btc" else P["T"]
         z = r.below(100)
         if z < 50:
-            time = pt + r.range(0, 2 * unit)
+            time = pt + (r.range(0, 2 * unit) if self.kind == "btc" else r.range((unit + 1) // 2, 2 * unit))
         elif z < 60:
             time = mtp
         elif z < 65:
@@ -263,6 +274,9 @@ class TreeGen:
         nxt = hexi(pr.get("next"))
         if nxt is None:
             return
+        if self.kind == "vbk" and self.feasible(nxt) == "hard":
+            # mining on top of this block would be too expensive (progpow): continue on another branch
+            self.dead.add(parent)
         w = r.below(100)
         if w < 80:
             bits = nxt
@@ -438,7 +452,7 @@ def generate(ctx, S, sizes, stats):
         trees.append((T, sizes["btc_ops"]))
     for i, P in enumerate(vsets):
         T = TreeGen(S, r.fork(), "V%d" % i, "vbk", P, stats)
-        T.new(S.now - 6000, compact_of(r.choice([1, 2, 3]) if P["mindiff"] <= 1 else P["mindiff"]))
+        T.new(S.now - 6000, compact_of(r.choice([3, 4, 5])))
         trees.append((T, sizes["vbk_ops"]))
     for T, _ in trees:
         if T.kind == "btc" and not T.P["noret"]:
